@@ -210,7 +210,17 @@ func runC22(s *simrt.Sim) {
 			if useStd {
 				// (the fork keeps the Go 1.2 contract: the last byte of any read operation may be
 				// unread; modern bufio refuses in a few more situations - not a stream property)
+				if lastKind == "ReadLine" {
+					// bufio's ReadLine may hand a trailing '\r' back to the buffer without updating
+					// what UnreadByte restores: the byte std gives back after it is not the last one it
+					// handed out. The stream oracle below stays in force; std is no reference from here.
+					useStd = false
+					s.Probe("unreadbyte_after_readline")
+				}
 				serr := std.UnreadByte()
+				if !useStd {
+					serr = err
+				}
 				if serr == nil && err != nil {
 					// the other direction is a regression: a byte bufio gives back is refused
 					fail("C22.stdlike", "unreadbyte-refused-where-std-accepts", "UnreadByte returned %v after %s where bufio.Reader accepts it", err, lastKind)
